@@ -723,6 +723,18 @@ pub const TAILS: &[&str] = &[
             "static int step;\nstatic int uses_step = step;\n",
             "void fn_then_global() {}\nstatic int fn_then_global;\nstatic int uses_ftg = fn_then_global;\n",
             "[[rssl::bindless]] cbuffer BindlessCB { float bcb_a; }\n",
+            // two string literals next to each other (not a thing in RSSL today: whatever is
+            // decided about them must not depend on what separates them)
+            "void str_cs() {}\nPipeline StrP { ComputeShader = str_cs; RenderTargetFormat0 = \"R8G8B8A8\" \"_UNORM\"; }\n",
+            // empty braces where a scalar is expected, directly and nested
+            "static int eb_a = {};\n",
+            "static float2 eb_v = { 1.0, {} };\n",
+            "struct EbS { float a; int b; };\nstatic EbS eb_s = { 1.0, {} };\n",
+            "void eb_f() { int eb_x = {}; }\nstatic int eb_arr[2] = { {}, 1 };\n",
+            // an enum whose names share values, used where the exporters have to pick a name
+            "enum AliasMode { AM_Off = 0, AM_Low = 1, AM_Default = 1, AM_High = 2, AM_Max = 2, AM_Ultra = 2 };\nint alias_select(AliasMode m) { switch (m) { case AliasMode::AM_Default: return 1; case AliasMode::AM_Ultra: return 2; default: return 0; } }\nstatic const AliasMode alias_g = AliasMode::AM_Max;\n",
+            // a task shader that reaches DispatchMesh with two payload types
+            "struct TmPayloadA { uint a; };\nstruct TmPayloadB { float4 b; };\ngroupshared TmPayloadA tm_lds_a;\ngroupshared TmPayloadB tm_lds_b;\nstruct TmVertex { float4 position : SV_Position; };\n[numthreads(64, 1, 1)]\nvoid TmTask(uint3 dtid : SV_DispatchThreadID) { tm_lds_a.a = dtid.x; tm_lds_b.b = float4(0, 0, 0, 0); if (dtid.x == 0) { DispatchMesh(4u, 1u, 1u, tm_lds_a); } else { DispatchMesh(2u, 1u, 1u, tm_lds_b); } }\n[numthreads(64, 1, 1)]\n[outputtopology(\"triangle\")]\nvoid TmMesh(uint3 dtid : SV_DispatchThreadID, in payload TmPayloadA data, out vertices TmVertex o_vertices[64], out indices uint3 o_triangles[64]) { SetMeshOutputCounts(64, 64); TmVertex v; v.position = float4(data.a, 0, 0, 1); o_vertices[dtid.x] = v; o_triangles[dtid.x] = uint3(0, 1, 2); }\nPipeline TmPipeline { TaskShader = TmTask; MeshShader = TmMesh; }\n",
             // sizeof of untyped literals and of vectors made from them
             "static const uint sz_a = sizeof(1.0);\n",
             "static const uint sz_b = sizeof(7.xxx);\n",
@@ -788,10 +800,13 @@ pub fn scenario(rng: &mut Rng, i: u64) -> (String, FsSpec, TaskSpec) {
 /// build), under target `t`: every tail meets every target whatever else the programs contain
 pub fn tail_scenario(k: usize, t: usize) -> (String, FsSpec, TaskSpec) {
     let target = [Target::Dx, Target::Vk, Target::Msl][t % 3];
-    let src = format!(
-        "void tail_cs() {{}}\nPipeline TailP {{ ComputeShader = tail_cs; }}\n{}",
-        TAILS[k % TAILS.len()]
-    );
+    // (a tail that brings its own pipeline is compiled as it is)
+    let tail = TAILS[k % TAILS.len()];
+    let src = if tail.contains("Pipeline ") {
+        tail.to_string()
+    } else {
+        format!("void tail_cs() {{}}\nPipeline TailP {{ ComputeShader = tail_cs; }}\n{tail}")
+    };
     let mut task = TaskSpec::compile(0, "test.rssl", target);
     task.buffer_address = target == Target::Vk;
     task.validate_layout = k % 2 == 0;
